@@ -133,7 +133,7 @@ func c16Tamper(r *core.Run, c c16Cipher, allValues bool) {
 }
 
 func runC16(r *core.Run) {
-	r.Rule = "E1: LeaseSet2 values of the generator within 1 variation x 2 recipient key pairs x 2 cookies under a deterministic crypto/rand.Reader; for each of the selected ciphertexts EVERY byte position x the 8 single-bit flips (thorough: all 255 other values, all ciphertexts); wrong private keys; truncated / extended ciphertexts. Blinding: destination types 7 and 11, KEY certificates with and without extra payload x 3 secrets x 3 instants around UTC midnight each expressed in 4 time zones x alphas {derived, of the next day, zero, another secret's, derived with one bit changed}. Oracles: decrypt(encrypt(x)) serialises to x's bytes; any modification or wrong key => error and nil value; blinded key == A + alpha*B computed with filippo.io/edwards25519; equal across zones for the same UTC day, different across days; VerifyBlindedSignature true exactly for the derived factor (also false for all 256 factors one bit away and for alpha + k*L). Sequences: every sequence of <= 3 (thorough 4) operations over {encrypt(3 plaintexts x 2 recipients), decrypt(oldest)} without copying returned ciphertexts; after every step every earlier ciphertext is unchanged and decrypts to its own plaintext. non-trivial = distinct (ciphertext, position, value) tamperings that were rejected, round trips, and blinding tuples evaluated"
+	r.Rule = "E1: LeaseSet2 values of the generator within 1 variation x 2 recipient key pairs x 2 cookies under a deterministic crypto/rand.Reader; for each of the selected ciphertexts EVERY byte position x the 8 single-bit flips (thorough: all 255 other values, all ciphertexts); wrong private keys; truncated / extended ciphertexts. Blinding: destination types 7 and 11, KEY certificates with and without extra payload x 6 secrets (32, 64, 65 and 128 bytes; two differing only in the last of 128 bytes) x 3 instants around UTC midnight each expressed in 4 time zones x alphas {derived, of the next day, zero, another secret's, derived with one bit changed}. Oracles: decrypt(encrypt(x)) serialises to x's bytes; any modification or wrong key => error and nil value; blinded key == A + alpha*B computed with filippo.io/edwards25519; equal across zones for the same UTC day, different across days; VerifyBlindedSignature true exactly for the derived factor (also false for all 256 factors one bit away and for alpha + k*L). Sequences: every sequence of <= 3 (thorough 4) operations over {encrypt(3 plaintexts x 2 recipients), decrypt(oldest)} without copying returned ciphertexts; after every step every earlier ciphertext is unchanged and decrypts to its own plaintext; every sequence of <= 4 (thorough 5) operations {decrypt right / wrong / []byte key, Bytes, Verify} on ONE EncryptedLeaseSet value with the verdicts and the serialisation re-checked after every step. non-trivial = distinct (ciphertext, position, value) tamperings that were rejected, round trips, and blinding tuples evaluated"
 	r.Assume("alpha derivation (HKDF) is go-i2p/crypto's kdf.DeriveBlindingFactor (third party, trusted); the blinded point itself is recomputed independently")
 	det := &detReader{}
 	crand.Reader = det
@@ -245,6 +245,7 @@ func runC16(r *core.Run) {
 		sd = 4
 	}
 	c16Sequences(r, det, sd)
+	c16ELSHistory(r, det, sd+1)
 	c16Blinding(r)
 	r.Sample(map[string]any{"ciphertext": "eph(32)|nonce(12)|ct|tag(16)", "tamper": "every byte x 8 single-bit flips"})
 	r.Sample(map[string]any{"blinding": "dest type 11, secret 32x00, instant D 23:59:59.999 UTC expressed in UTC-12", "alphas": "derived / next day / zero / other secret / one bit off"})
@@ -268,7 +269,10 @@ func c16Blinding(r *core.Run) {
 	day := time.Date(2031, 3, 17, 0, 0, 0, 0, time.UTC)
 	instants := []time.Time{day, day.Add(24*time.Hour - time.Millisecond), day.Add(24 * time.Hour)}
 	zones := []*time.Location{time.UTC, time.FixedZone("UTC+14", 14*3600), time.FixedZone("UTC-12", -12*3600), time.FixedZone("+0530", 5*3600+1800)}
-	secrets := [][]byte{make([]byte, 32), refmodel.Fill("secret", 1, 32), refmodel.Fill("secret", 2, 64)}
+	long := refmodel.Fill("secret", 3, 128)
+	long2 := append([]byte(nil), long...)
+	long2[127] ^= 1 // differs from long only in its last byte
+	secrets := [][]byte{make([]byte, 32), refmodel.Fill("secret", 1, 32), refmodel.Fill("secret", 2, 64), refmodel.Fill("secret", 4, 65), long, long2}
 	type bdest struct {
 		st    int
 		extra []byte
@@ -504,6 +508,103 @@ func c16Sequences(r *core.Run, det *detReader, depth int) {
 	r.Distinct([]byte("seq"), []byte{byte(depth), byte(nops)})
 }
 
+// c16ELSHistory: every sequence of up to depth operations on ONE EncryptedLeaseSet value over the
+// alphabet {decrypt with the right key, decrypt with a wrong key, decrypt with the right key in
+// []byte form, Bytes, Verify}. After every step: the right key yields the plaintext, the wrong key
+// yields an error and no value, Bytes() equals the bytes the value was parsed from, Verify() gives
+// what it gave on the fresh value, and the ciphertext accessor is unchanged.
+func c16ELSHistory(r *core.Run, det *detReader, depth int) {
+	var plainLS *lease_set2.LeaseSet2
+	var plainRaw []byte
+	choose.Explore(0, 1, nil, func(c *choose.Ctx) {
+		s := gen.LeaseSet2(c)
+		if ls, rem, err := lease_set2.ReadLeaseSet2(s.Bytes); err == nil && len(rem) == 0 {
+			plainLS, plainRaw = &ls, s.Bytes
+		}
+	})
+	if plainLS == nil {
+		r.Note("els_history", "skipped: default LeaseSet2 does not parse")
+		return
+	}
+	pub, priv := adapt.X25519Pair(1)
+	_, wrong := adapt.X25519Pair(11)
+	var cookie [32]byte
+	det.reset(4242)
+	ct, err := encrypted_leaseset.EncryptInnerLeaseSet2(plainLS, cookie, pub)
+	if err != nil {
+		r.Violate("C16|els-history|encrypt-fails", err.Error(), core.Case{Kind: "elshistory"})
+		return
+	}
+	wire := refmodel.EncryptedLeaseSet{SigType: 11, Blinded: gen.Key(11, 77).Pub, Published: gen.Published, Expires: 600, Inner: ct, Sig: make([]byte, 64)}.Bytes()
+	names := []string{"decrypt(right key)", "decrypt(wrong key)", "decrypt(right key as []byte)", "Bytes", "Verify"}
+	var seqs int64
+	var rec func(seq []int)
+	rec = func(seq []int) {
+		if len(seq) > 0 {
+			seqs++
+			els, _, err := encrypted_leaseset.ReadEncryptedLeaseSet(append([]byte(nil), wire...))
+			if err != nil {
+				r.Violate("C16|els-history|does-not-parse", err.Error(), core.Case{Kind: "elshistory"})
+				return
+			}
+			v0 := fmt.Sprint(els.Verify() == nil)
+			fail := func(step int, what string) {
+				var sn []string
+				for _, o := range seq {
+					sn = append(sn, names[o])
+				}
+				r.Violate("C16|els-history|"+what, fmt.Sprintf("sequence %v on one EncryptedLeaseSet: at step %d %s", sn, step, what), core.Case{Kind: "elshistory", Args: map[string]string{"ops": fmt.Sprint(seq)}})
+			}
+			for step, op := range seq {
+				r.Transitions.Add(1)
+				switch op {
+				case 0, 2:
+					var k interface{} = priv
+					if op == 2 {
+						k = []byte(priv)
+					}
+					v, err := els.DecryptInnerData(cookie[:], k)
+					if err != nil || v == nil {
+						fail(step, "the-matching-key-no-longer-decrypts")
+						return
+					}
+					if b, berr := v.Bytes(); berr != nil || !bytes.Equal(b, plainRaw) {
+						fail(step, "decrypts-to-a-different-value")
+						return
+					}
+				case 1:
+					if v, err := els.DecryptInnerData(cookie[:], wrong); err == nil || v != nil {
+						fail(step, "a-wrong-key-decrypts")
+						return
+					}
+				case 3:
+					// evaluated below for every step
+				case 4:
+					if fmt.Sprint(els.Verify() == nil) != v0 {
+						fail(step, "verify-verdict-changed")
+						return
+					}
+				}
+				if b, berr := els.Bytes(); berr != nil || !bytes.Equal(b, wire) {
+					fail(step, "serialisation-changed-after-an-operation")
+					return
+				}
+			}
+		}
+		if len(seq) < depth {
+			for o := range names {
+				rec(append(append([]int(nil), seq...), o))
+			}
+		}
+	}
+	rec(nil)
+	r.Traces.Add(seqs)
+	r.States.Add(seqs)
+	r.Evaluations.Add(seqs)
+	r.Note("els_history_sequences", seqs)
+	r.Distinct([]byte("elshistory"), []byte{byte(depth)})
+}
+
 func replayC16(r *core.Run, c core.Case) {
 	switch c.Kind {
 	case "tamper":
@@ -522,6 +623,10 @@ func replayC16(r *core.Run, c core.Case) {
 		}
 	case "blind":
 		c16Blinding(r)
+	case "elshistory":
+		det := &detReader{}
+		crand.Reader = det
+		c16ELSHistory(r, det, 4)
 	case "sequence":
 		det := &detReader{}
 		crand.Reader = det
